@@ -100,13 +100,18 @@ PaddingWhy(r) ==
 LeftFills(ta, ex) == CASE ta = "left" -> {0} [] ta = "right" -> {ex} [] OTHER -> {ex \div 2, ex - ex \div 2}
 \* X = the n cells between "corner + one border cell" on both sides: the title with one blank on
 \* each side placed by title_align when it fits; otherwise some prefix of it (a cut double-width
-\* character may leave one blank) - the statement only wants the rectangle to stay exact
+\* character may leave one blank; a title Text that asks for overflow="ellipsis" ends in an
+\* ellipsis, and what its trailing blanks gave up is filled with blanks or border cells) - the
+\* statement only wants the rectangle to stay exact
 TitleRowOK(X, title, n, t, ta) ==
     LET padded == <<SPC>> \o title \o <<SPC>>
         ex == n - CL(padded)
     IN IF ex >= 0 THEN \E a \in LeftFills(ta, ex) : X = Rep(t, a) \o padded \o Rep(t, ex - a)
        ELSE /\ CL(X) = n
-            /\ \E k \in 0..Len(padded) : \E s \in 0..1 : X = SubSeq(padded, 1, k) \o Sp(s)
+            /\ \E k \in 0..Min(Len(padded), Len(X)) :
+                  /\ SubSeq(X, 1, k) = SubSeq(padded, 1, k)
+                  /\ \A i \in (k + 1)..Len(X) : X[i] \in {SPC, t, ELL}
+                  /\ Cardinality({i \in (k + 1)..Len(X) : X[i] = ELL}) <= 1
 TopRowOK(top, B, Wp, title, ta) ==
     IF title = <<>> \/ Wp < 4 THEN top = <<B[1]>> \o Rep(B[2], Wp - 2) \o <<B[3]>>
     ELSE /\ Len(top) >= 4
@@ -150,7 +155,11 @@ PanelDrift(r) ==
         ex == n - CL(padded)
     IN IF r.title # <<>> /\ r.ta = "center" /\ ex >= 0
           /\ \A b \in DOMAIN r.boxes : SubSeq(top, 3, Len(top) - 2) # Rep(r.boxes[b][2], ex \div 2) \o padded \o Rep(r.boxes[b][2], ex - ex \div 2)
-       THEN "drift:title-centre-rounding" ELSE "ok"
+       THEN "drift:title-centre-rounding"
+       \* r.want (when logged): index in r.boxes of the box that box.py's substitution table prescribes for this
+       \* console (legacy windows x safe_box, then ASCII when ascii-only); another admissible box is only DRIFT
+       ELSE IF "want" \in DOMAIN r /\ PanelBoxWhy(r, r.boxes[r.want]) # "ok" THEN "drift:box-substitution"
+       ELSE "ok"
 
 \* optional style clause (only sent when the frame has no style of its own): the style ids of
 \* the child's cells are unchanged.  r.outs / r.chs are aligned with r.out / r.ch; off = index
@@ -221,19 +230,29 @@ RuleTitled(r, line, T, needBalance, exact) ==
                         /\ (needBalance => Balanced(CL(SubSeq(line, 1, i - 1)), CL(SubSeq(line, i + tl, n))))
                         /\ (exact => CL(SubSeq(line, 1, i - 1)) = (r.W - CL(T)) \div 2)
 RuleAvail(r) == IF r.al = "center" THEN r.W - 4 ELSE r.W - 2
+\* r.rj (when logged): the ConsoleOptions handed to the rule ask for justify = "center" / "right".  The finished line
+\* (a text) is then re-justified like any text: blanks at its end - the half cell left by a double-width character, a
+\* blank that belongs to `characters` or to the title - move to its start.  The statement speaks of the width only:
+\* for such a line the order of fill and blanks is not judged (the width and the presence of the title are).
+RECURSIVE RStrip(_)
+RStrip(s) == IF s # <<>> /\ s[Len(s)] = SPC THEN RStrip(SubSeq(s, 1, Len(s) - 1)) ELSE s      \* (the blanks that end a title move with the others)
+RuleShifted(r) == /\ "rj" \in DOMAIN r /\ r.rj /\ r.out[1] # <<>>
+                  /\ (r.out[1][1] = SPC \/ r.out[1][Len(r.out[1])] = SPC)
 RuleWhy(r) ==
     LET line == r.out[1]
         Ts == Titles(r.title, RuleAvail(r))
     IN IF r.W < r.m THEN "skip:below-min"
        ELSE IF Len(r.out) # 1 THEN "line-count"
        ELSE IF CL(line) # r.W THEN "width-differs"
+       ELSE IF RuleShifted(r) THEN (IF r.title = <<>> \/ \E T \in Ts : Occurs(line, RStrip(T)) THEN "ok" ELSE "title-missing")
        ELSE IF r.title = <<>> THEN (IF RuleFill(r, line) THEN "ok" ELSE "fill-differs")
        ELSE IF ~\E T \in Ts : Occurs(line, T) THEN "title-missing"
        ELSE IF ~\E T \in Ts : RuleTitled(r, line, T, FALSE, FALSE) THEN "fill-differs"
        ELSE IF ~\E T \in Ts : RuleTitled(r, line, T, TRUE, FALSE) THEN "title-off-centre"
        ELSE "ok"
 RuleDrift(r) ==
-    IF r.title # <<>> /\ r.al = "center" /\ ~\E T \in Titles(r.title, RuleAvail(r)) : RuleTitled(r, r.out[1], T, TRUE, TRUE)
+    IF RuleShifted(r) THEN "ok"
+    ELSE IF r.title # <<>> /\ r.al = "center" /\ ~\E T \in Titles(r.title, RuleAvail(r)) : RuleTitled(r, r.out[1], T, TRUE, TRUE)
     THEN "drift:title-centre-rounding" ELSE "ok"
 
 \* ---- Bar, ProgressBar ------------------------------------------------------------------------
